@@ -27,6 +27,112 @@ def independent_tokens(sql, dialect):
     return stripped, toks, lexerr
 
 
+class CallLog:
+    """Call-level events of one parse_sql call (ParseSql.tla vocabulary)."""
+    cur = None
+
+    def __init__(self):
+        self.events = []
+        self.loc_called = False
+        self.raised_logged = False
+
+
+def _install_wrappers():
+    """Wrap ErrorHandling methods once (harness level, no repository change). Returns False if the
+    reporter's internals cannot be observed (then the spec's OpaqueReport action is used)."""
+    import mindsdb_sql
+    EH = getattr(mindsdb_sql, 'ErrorHandling', None)
+    if EH is None or getattr(EH, '_verif_wrapped', False):
+        return EH is not None
+    names = ('process', 'error_location', 'make_suggestion')
+    if not all(callable(getattr(EH, n, None)) for n in names):
+        return False
+    o_process, o_loc, o_sugg = EH.process, EH.error_location, EH.make_suggestion
+
+    def nested_failed(log):
+        return bool(log.events) and log.events[-1]['e'] == 'nested' and log.events[-1].get('open')
+
+    def process(self, error_info):
+        log = CallLog.cur
+        if log is None:
+            return o_process(self, error_info)
+        log.events.append({'e': 'process_begin', 'o': ''})
+        try:
+            r = o_process(self, error_info)
+        except BaseException:
+            if not log.raised_logged and not nested_failed(log):
+                log.events.append({'e': 'reporter_raises', 'o': ''})
+                log.raised_logged = True
+            raise
+        if not log.loc_called:
+            log.events.append({'e': 'empty', 'o': ''})
+        return r
+
+    def error_location(self):
+        log = CallLog.cur
+        if log is None:
+            return o_loc(self)
+        log.loc_called = True
+        try:
+            r = o_loc(self)
+        except BaseException:
+            log.events.append({'e': 'reporter_raises', 'o': ''})
+            log.raised_logged = True
+            raise
+        log.events.append({'e': 'loc_done', 'o': ''})
+        return r
+
+    def make_suggestion(self):
+        log = CallLog.cur
+        if log is None:
+            return o_sugg(self)
+        log.events.append({'e': 'sugg_begin', 'o': ''})
+        try:
+            r = o_sugg(self)
+        except BaseException:
+            if not nested_failed(log):
+                log.events.append({'e': 'reporter_raises', 'o': ''})
+                log.raised_logged = True
+            raise
+        log.events.append({'e': 'sugg_end', 'o': ''})
+        return r
+    EH.process, EH.error_location, EH.make_suggestion = process, error_location, make_suggestion
+    EH._verif_wrapped = True
+    return True
+
+
+class CallRecorder(ParseRecorder):
+    """Driver-event recorder that also feeds run begin/end into the call-level log."""
+
+    def __init__(self, log, keep_tokens=False):
+        super().__init__(keep_tokens)
+        self.log = log
+
+    def __call__(self, parser, name, *a):
+        if name == 'begin':
+            self._close_run()
+            super().__call__(parser, name, *a)
+            kind = 'first' if len(self.runs) == 1 else 'nested'
+            self.log.events.append({'e': kind, 'o': '', 'open': True, 'run': len(self.runs) - 1})
+            return
+        super().__call__(parser, name, *a)
+        if name in ('accept', 'return_none', 'bail'):
+            self._close_run()
+
+    def _close_run(self):
+        for e in reversed(self.log.events):
+            if e['e'] in ('first', 'nested'):
+                if e.get('open'):
+                    last = self.runs[e['run']][-1]['e'] if self.runs[e['run']] else ''
+                    if last == 'accept':
+                        e['o'] = 'accepted'
+                        e['open'] = False
+                    elif last in ('return_none', 'bail'):
+                        e['o'] = 'none'
+                        e['open'] = False
+                break
+
+
 def outcome_of(events, exc):
     if exc is not None:
         cls = type(exc).__name__
@@ -44,7 +150,10 @@ def trace_parse_sql(sql, dialect, keep_tokens=False):
     """Returns dict(trace=<record for SlyTrace>, result, exc, rec, toks, stripped, lexerr)."""
     from mindsdb_sql import parse_sql
     stripped, toks, lexerr = independent_tokens(sql, dialect)
-    rec = ParseRecorder(keep_tokens)
+    observed = _install_wrappers()
+    log = CallLog()
+    rec = CallRecorder(log, keep_tokens)
+    CallLog.cur = log
     prev = yacc._verif_sink
     yacc._verif_sink = rec
     res, exc = None, None
@@ -56,6 +165,21 @@ def trace_parse_sql(sql, dialect, keep_tokens=False):
         exc = e
     finally:
         yacc._verif_sink = prev
+        CallLog.cur = None
+    # close the call-level log: runs still open were ended by the exception that escaped
+    for e in log.events:
+        if e['e'] in ('first', 'nested') and e.get('open'):
+            e['o'] = outcome_of(['x'], exc) if exc is not None else 'none'
+            e['open'] = False
+    cev = [{'e': e['e'], 'o': e['o']} for e in log.events]
+    if not rec.runs:
+        # the lexer failed before the driver pulled anything, or parse() was never reached
+        cev.insert(0, {'e': 'first', 'o': outcome_of([], exc) if exc is not None else 'none'})
+    if not observed:
+        cev = [e for e in cev if e['e'] in ('first',)] + ([{'e': 'opaque_report', 'o': ''}] if cev and cev[0]['o'] == 'none' else [])
+    fin = final_outcome(res, exc)
+    cev.append({'e': 'final', 'o': 'internal' if fin.startswith('internal:') else ('non_tree' if fin.startswith('non_tree') else fin)})
+    call_trace = {'cb': 'record' if CB_OF[dialect] != 'raise' else 'raise', 'events': cev}
     first = rec.runs[0] if rec.runs else []
     # the exception belongs to the first run only if no nested run started and the run did not end
     ended = bool(first) and first[-1]['e'] in ('accept', 'return_none', 'bail')
@@ -63,7 +187,7 @@ def trace_parse_sql(sql, dialect, keep_tokens=False):
     drv_outcome = outcome_of(events, exc if not ended else None)
     trace = {'input': [t.type for t in toks], 'cb': CB_OF[dialect], 'events': events, 'outcome': drv_outcome,
              'lexerr': 0 if lexerr is None else 1}
-    return {'trace': trace, 'result': res, 'exc': exc, 'rec': rec, 'toks': toks, 'stripped': stripped,
+    return {'trace': trace, 'call': call_trace, 'result': res, 'exc': exc, 'rec': rec, 'toks': toks, 'stripped': stripped,
             'lexerr': lexerr, 'driver_ended': ended, 'nested_runs': len(rec.runs) - 1}
 
 
